@@ -42,14 +42,24 @@ def _run_shard(pid, tier, seed, shard, nshards, outdir, timeout, env_fn=None):
     try:
         p = subprocess.run(cmd, timeout=timeout, capture_output=True, text=True, env=env)
     except subprocess.TimeoutExpired as e:
-        return {"shard": shard, "fatal": "watchdog", "detail": "timeout after %ds" % timeout,
-                "stderr": (e.stderr or b"")[-2000:] if isinstance(e.stderr, (bytes, str)) else ""}
+        r = {"shard": shard, "fatal": "watchdog", "detail": "timeout after %ds" % timeout,
+             "stderr": (e.stderr or b"")[-2000:] if isinstance(e.stderr, (bytes, str)) else ""}
+        r["partial"] = _partial(out)
+        return r
     if p.returncode != 0 or not os.path.exists(out):
         return {"shard": shard, "fatal": "crash", "detail": "exit %d" % p.returncode,
-                "stderr": p.stderr[-3000:], "stdout": p.stdout[-1000:]}
+                "stderr": p.stderr[-3000:], "stdout": p.stdout[-1000:], "partial": _partial(out)}
     rep = json.load(open(out))
     rep["proc_wall_s"] = round(time.time() - t0, 2)
     return rep
+
+
+def _partial(out):
+    """Violations a shard had recorded before it hung or crashed."""
+    try:
+        return json.load(open(out + ".partial"))
+    except Exception:
+        return None
 
 
 def merge(reports):
@@ -62,6 +72,13 @@ def merge(reports):
     for r in reports:
         if "fatal" in r:
             m["fatal"].append(r)
+            pr = r.get("partial")
+            if pr:                       # keep what the shard had found before it died; coverage counters of a partial report are not used
+                m["violations"].extend(pr.get("violations", []))
+                m["violation_count"] += pr.get("violation_count", 0)
+                m["vkeys"].update(pr.get("vkeys", {}))
+                m["notes"].setdefault("partial_reports_from_dead_shards", 0)
+                m["notes"]["partial_reports_from_dead_shards"] += 1
             continue
         m["evals"] += r["evals"]
         for k in ("monitors", "classes", "paths", "events"):
@@ -187,7 +204,7 @@ def main(argv=None):
         return 2
 
     nshards = mod.shards(tier)
-    timeout = mod.TIMEOUT[tier] if hasattr(mod, "TIMEOUT") else (1500 if tier == "quick" else 6 * 3600)
+    timeout = mod.TIMEOUT[tier] if hasattr(mod, "TIMEOUT") else (2400 if tier == "quick" else 6 * 3600)
     outdir = tempfile.mkdtemp(prefix="pv_%s_" % pid)
     try:
         if args.shard is not None:
